@@ -66,4 +66,43 @@ def rangeOk (c : Fin 16) : Bool :=
   | _ => false
 
 theorem rangeOk_all : ∀ c : Fin 16, rangeOk c = true := by decide +kernel
+/-- configuring again replaces the configuration: nothing of the first one is left -/
+theorem configure_twice (t : TlsCtx) (a b : Config) : (t.configure a).configure b = t.configure b := by
+  cases t with
+  | mk srv cfg ctx => cases srv <;> simp [TlsCtx.configure]
+
+/-- …also across a session attempt (`connect`) and `tls_reset` -/
+theorem client_configure_after_reset (t : TlsCtx) (a b : Config) (h : t.isServer = false) :
+    (((t.configure a).connect.reset).configure b).connect = (t.configure b).connect := by
+  cases t with
+  | mk srv cfg ctx => subst h; simp [TlsCtx.configure, TlsCtx.connect, TlsCtx.reset]
+
+theorem server_configure_after_reset (t : TlsCtx) (a b : Config) (h : t.isServer = true) :
+    ((t.configure a).reset).configure b = t.configure b := by
+  cases t with
+  | mk srv cfg ctx => subst h; simp [TlsCtx.configure, TlsCtx.reset]
+
+theorem clientVerifyOf_cases (v : Int) :
+    (if !(v != 0) then ClientVerify.off else if v == 1 then .required else .optional) = clientVerifyOf v := by
+  unfold clientVerifyOf
+  by_cases h0 : v = 0
+  · simp [h0]
+  · by_cases h1 : v = 1 <;> simp [h0, h1]
+
+/-- the policy of two contexts is the policy of their LAST configurations -/
+theorem policy_of_last (tc ts : TlsCtx) (hc : tc.isServer = false) (hs : ts.isServer = true)
+    (b b' : Config) (g : Bool) (sc : PeerCert) (cov : Bool) (cc : Option PeerCert) :
+    Policy.ofCtxs (tc.configure b).connect (ts.configure b') g sc cov cc = some (Policy.ofConfigs b b' g sc cov cc) := by
+  cases tc with
+  | mk s1 c1 x1 =>
+    cases ts with
+    | mk s2 c2 x2 =>
+      simp only at hc hs
+      subst hc; subst hs
+      simp only [TlsCtx.configure, TlsCtx.connect, Policy.ofCtxs, Policy.ofConfigs, SslCtx.ofClientConfig,
+        SslCtx.ofServerConfig, Bool.false_eq_true, if_false, if_true, Option.some.injEq, Policy.mk.injEq, true_and, and_true]
+      refine ⟨?_, ?_, ?_⟩
+      · cases h : (b.verifyTime == 0) <;> simp_all
+      · exact clientVerifyOf_cases _
+      · cases h : (b'.verifyTime == 0) <;> simp_all
 end UsualProofs.C17
